@@ -60,6 +60,8 @@ def same(ex, st, a, b):
     if isinstance(a, AbsVec) and isinstance(b, VecV):
         return z3.And(a.n == 0, z3.BoolVal(len(b.items) == 0))
     if isinstance(a, EnumV) and isinstance(b, EnumV):
+        if a.lazy and b.lazy and a.nm is not None and b.nm is not None and a.nm != b.nm:
+            return z3.BoolVal(False)
         da, db = a.discr_expr(), b.discr_expr()
         cs = [da == db]
         for vi in set(a.payload) | set(b.payload):
@@ -73,6 +75,8 @@ def same(ex, st, a, b):
                     cs.append(z3.Implies(da == vi, z3.BoolVal(False)))
         return z3.And(cs)
     if isinstance(a, Agg) and isinstance(b, Agg):
+        if a.lazy and b.lazy and a.nm is not None and b.nm is not None and a.nm != b.nm:
+            return z3.BoolVal(False)      # two different lazily materialised values: nothing makes them equal
         cs = []
         for fi in set(a.fields) | set(b.fields):
             if fi in a.fields and fi in b.fields:
